@@ -167,7 +167,7 @@ func c04Hostile(p *c04Prog, fx *routes.Fixture, baseDepth int) (decoded string, 
 	}
 	if p.Target == "own-alias" {
 		// no dots at all: empty segments, which a file system resolves to ANOTHER key of the same bucket
-		val = []string{"/obj1", "//obj1", "dir//obj2", "/dir/obj2", "dir///obj2", "//dir//obj2"}[p.Depth%6]
+		val = []string{"/obj1", "//obj1", "dir//obj2", "/dir/obj2", "dir///obj2", "//dir//obj2", "obj1/", "dir/obj2/"}[(p.Depth+len(p.Route))%8]
 	}
 	if p.Target == "bucket-itself" {
 		// a value that names no object at all but resolves to the directory of the named bucket
@@ -407,6 +407,11 @@ func (c04) Exec(c *core.Case) (out *core.Outcome) {
 		lit := filepath.Join(e.Dirs.Root, named) + "/" + dec
 		if cl := filepath.Clean(lit); cl != lit && cl != strings.TrimSuffix(lit, "/") {
 			aliasTarget = cl
+		} else if strings.HasSuffix(dec, "/") {
+			// "obj1/" names a directory object; the FILE of the key "obj1" is not its storage
+			if fi, err := os.Stat(cl); err == nil && fi.Mode().IsRegular() {
+				aliasTarget = cl
+			}
 		}
 	}
 	classify := func(abs string) string {
